@@ -9,10 +9,12 @@ import (
 
 	"codeberg.org/TauCeti/mangle-go/analysis"
 	"codeberg.org/TauCeti/mangle-go/ast"
+	"codeberg.org/TauCeti/mangle-go/builtin"
 	"codeberg.org/TauCeti/mangle-go/engine"
 	"codeberg.org/TauCeti/mangle-go/factstore"
 	"codeberg.org/TauCeti/mangle-go/functional"
 	"codeberg.org/TauCeti/mangle-go/provenance"
+	"codeberg.org/TauCeti/mangle-go/unionfind"
 	"codeberg.org/TauCeti/mangle-go/zzsim/simrt"
 )
 
@@ -177,6 +179,16 @@ func (pc *proofChecker) check(n *provenance.ProofNode, path map[string]bool) err
 		switch t := lit.(type) {
 		case ast.Atom:
 			if t.Predicate.IsBuiltin() {
+				// a constraint: no premise node, it must hold under the bindings
+				ga, err := functional.EvalAtom(t.ApplySubst(subst).(ast.Atom), nil)
+				if err != nil {
+					return fmt.Errorf("C15/constraint-unevaluable: %v under %v", t, n.Bindings)
+				}
+				uf := unionfind.New()
+				ok, _, derr := builtin.Decide(ga, &uf)
+				if derr != nil || !ok {
+					return fmt.Errorf("C15/constraint-false: %v does not hold under the reported bindings %v (%v)", t, n.Bindings, derr)
+				}
 				continue
 			}
 			if pi >= len(n.Premises) {
@@ -232,7 +244,9 @@ func runC15(r *simrt.Run, tier Tier) Outcome {
 	o := DrawOpts(r)
 	o.Aggregation, o.Lets, o.Funcs, o.Structured, o.Strings = false, false, false, false, false
 	o.NegWildcard = false
-	o.NoOrderCmp = true
+	// order comparisons and other built-in predicates are body literals of a
+	// transform-free program like any other (the statement makes no exception)
+	o.NoOrderCmp = r.OneIn(3, "c15.nocmp")
 	// equalities that bind a variable and function expressions in heads belong to
 	// the documented fragment (positive Datalog with = and != premises)
 	o.EqBind, o.HeadFn = r.Bool("c15.eqbind"), r.Bool("c15.headfn")
